@@ -39,10 +39,25 @@ var (
 	finePkgs = flag.String("fine", "", "packages instrumented at statement granularity: a scheduling point before every statement, and every store to a non-local location split into compute / scheduling point / store (comma separated import paths; a trailing /... matches sub-packages)")
 )
 
+// fineFuncs: a pattern "import/path:Func1+Func2" restricts the statement-granularity rewrite to the named functions and
+// methods of that package (loops over large tables elsewhere in the package would make executions too long).
+var fineFuncs = map[string]map[string]bool{}
+
 func fineMatch(path string) bool {
 	for _, pat := range strings.Split(*finePkgs, ",") {
 		if pat == "" {
 			continue
+		}
+		if i := strings.IndexByte(pat, ':'); i > 0 {
+			if pat[:i] != path {
+				continue
+			}
+			m := map[string]bool{}
+			for _, f := range strings.Split(pat[i+1:], "+") {
+				m[f] = true
+			}
+			fineFuncs[path] = m
+			return true
 		}
 		if strings.HasSuffix(pat, "/...") {
 			if b := strings.TrimSuffix(pat, "/..."); path == b || strings.HasPrefix(path, b+"/") {
@@ -940,6 +955,9 @@ func (r *rewriter) fineFile() {
 		case *ast.FuncDecl:
 			if b.Doc != nil && hasDirective(b.Doc) {
 				return false // //go:nosplit and friends: leave alone
+			}
+			if only := fineFuncs[r.pkg.PkgPath]; only != nil && !only[b.Name.Name] {
+				return false
 			}
 		case *ast.BlockStmt:
 			b.List = r.fineList(b.List)
